@@ -759,11 +759,11 @@ def c02_large_cases(tier, seed):
     """gradients beyond the exhaustive sizes: dimensions up to 6, rank up to 4"""
     rnd = random.Random(seed)
     cases = []
-    n = 600 if tier == "thorough" else 90
+    n = 900 if tier == "thorough" else 160
     while len(cases) < n:
         r1, r2 = rnd.randint(1, 4), rnd.randint(1, 4)
-        a = [rnd.choice([1, 2, 4, 5, 6]) for _ in range(r1)]
-        b = [x if rnd.random() < 0.6 else 1 for x in a][-r2:] if rnd.random() < 0.8 else [rnd.choice([1, 4, 5]) for _ in range(r2)]
+        a = [rnd.choice([1, 2, 3, 4, 5, 6, 7, 8]) for _ in range(r1)]
+        b = [x if rnd.random() < 0.6 else 1 for x in a][-r2:] if rnd.random() < 0.8 else [rnd.choice([1, 4, 5, 7]) for _ in range(r2)]
         od = bdims(a, b)
         if od is None or prod(od) > 300:
             continue
@@ -774,10 +774,10 @@ def c02_large_cases(tier, seed):
                  op(o, [1, 2], 10, **({"alpha": sc(F(3, 2))} if o == "axpy" else {})),
                  backward(10, seed_tensor(od, k0=len(cases)))]
         cases.append(steps)
-    for _ in range(200 if tier == "thorough" else 40):
-        r, k, c = rnd.randint(1, 6), rnd.randint(1, 6), rnd.randint(1, 6)
+    for _ in range(300 if tier == "thorough" else 70):
+        r, k, c = rnd.randint(1, 7), rnd.randint(1, 7), rnd.randint(1, 7)
         ta, tb = rnd.random() < 0.5, rnd.random() < 0.5
-        lead = rnd.choice([[], [2], [3], [2, 2]])
+        lead = rnd.choice([[], [2], [3], [2, 2], [2, 3]])
         da = lead + ([k, r] if ta else [r, k])
         db = rnd.choice([[], lead[-1:]]) + ([c, k] if tb else [k, c])
         dc = rnd.choice([None, [c], [1, c], [r, c], [1]])
